@@ -5,9 +5,11 @@ use serde_json::Map;
 use crate::{
     callstack::{CallStack, Thread},
     choice::Choice,
+    choice_point::ChoicePoint,
     container::Container,
     json::{json_read, json_write},
     object::RTObject,
+    path::Path,
     story_error::StoryError,
 };
 
@@ -134,6 +136,19 @@ impl Flow {
         main_content_container: Rc<Container>,
     ) -> Result<(), StoryError> {
         for choice in self.current_choices.iter_mut() {
+            // The save format does not carry the invisible-default flag of a
+            // pending fallback choice; recover it from the choice point the
+            // choice was generated from.
+            if let Some(c) = Rc::get_mut(choice) {
+                let source = Path::new_with_components_string(Some(&c.source_path));
+                let found = main_content_container.content_at_path(&source, 0, -1);
+                if !found.approximate
+                    && let Some(choice_point) = found.obj.as_any().downcast_ref::<ChoicePoint>()
+                {
+                    c.is_invisible_default = choice_point.is_invisible_default();
+                }
+            }
+
             self.callstack
                 .borrow()
                 .get_thread_with_index(*choice.original_thread_index.borrow())
